@@ -73,12 +73,12 @@ func driveC27(toks []string) string {
 		switch toks[1] {
 		case "install":
 			j := p.job()
-			step, tear := p.at()
-			w.install(vt, ct, j, step, tear)
+			step, tear, trunc := p.at()
+			w.installTrunc(vt, ct, j, step, tear, trunc)
 		case "addrepo":
 			p.expect("REPO")
 			slug, url := unhx(p.next()), unhx(p.next())
-			step, tear := p.at()
+			step, tear, _ := p.at()
 			w.addRepoURL(slug, url, step, tear)
 		default:
 			return "bad-op"
@@ -271,6 +271,13 @@ func genC27(g *Gen, tier string, w *bufio.Writer) {
 				if t >= 0 {
 					fmt.Fprintf(w, "crash install %s %s AT %d %d\n", head, job, tw.step, t)
 				}
+			}
+		}
+		// Unarchive stopping by itself on a truncated archive: what a kill inside Unarchive leaves behind
+		// (cuts well inside the compressed data; cutting only the gzip trailer lets the tar reader finish)
+		for _, t := range []int{len(j.archive) / 3, len(j.archive) / 2, 2 * len(j.archive) / 3} {
+			if t > 0 {
+				fmt.Fprintf(w, "crash install %s %s AT 4 u%d\n", head, job, t)
 			}
 		}
 		// ---- repository add
